@@ -164,9 +164,9 @@ Proof.
   intros (F & V & M). split; auto. apply orb_false_iff in F. destruct F as [F _]. rewrite F. auto.
 Qed.
 
-Lemma Outcome_W_F G s g tag nn v p f :
-  Outcome (fun G s => LiveW G s nn v p) (spec_W nn v p) G s g f ->
-  Outcome (fun G s => LiveF G s (FP tag nn (Some v)) p) (spec_F (FP tag nn (Some v)) p) G s g f.
+Lemma Outcome_W_F Bk G s g tag nn v p f :
+  OutcomeB Bk (fun G s => LiveW G s nn v p) (spec_W nn v p) G s g f ->
+  OutcomeB Bk (fun G s => LiveF G s (FP tag nn (Some v)) p) (spec_F (FP tag nn (Some v)) p) G s g f.
 Proof.
   destruct f as [r|c]; simpl.
   - intros [R E]. split; auto. now apply ResOK_W_F.
@@ -196,7 +196,7 @@ Section Field.
         | Some v => nn_wrap FX nn p (complete_inner FX v p s1)
         end
     | Some t =>
-        let '(id, s2) := new_promise t p (is_some res) s1 in
+        let '(id, s2) := (if tag_prefilled t then new_promise_pre else new_promise) t p (is_some res) s1 in
         Then (New (promise_poll id)) (field_k FX nn res p) s2
     end.
   Proof. unfold fp. destruct tag, res; reflexivity. Qed.
@@ -206,7 +206,7 @@ Section Field.
     INV G (s_maps s) -> chans_wf s -> ok = is_some res ->
     forall t s2, field_k FX nn res p (if ok then ROk GUnit else RErr (mkerr [] KRaw)) s = (t, s2) ->
     exists G' g', Step G s {| g_sites := snd (cand_field fp p); g_ids := []; g_pot := count_async_r res |} G' s2 g' /\
-                  Outcome (fun G s => LiveW G s nn (match res with Some v => v | None => VNull end) p)
+                  Outcome0 (fun G s => LiveW G s nn (match res with Some v => v | None => VNull end) p)
                           (spec_F fp p) G' s2 g' t /\
                   (res = None -> exists r, t = Ready r).
   Proof.
@@ -236,12 +236,20 @@ Section Field.
     { split; [apply gle_refl|]. split; [apply sle_add_ev|]. split; [exact I|].
       apply Acct_same, same_acct_add_ev. }
     destruct tag as [t|] eqn:T.
-    - (* promise *)
-      unfold new_promise, Then, New in E. injection E as <- <-.
+    - (* promise: fulfilled by the idle handler later, or already before the resolver returns *)
+      set (pre := tag_prefilled t) in *.
       set (id := length (s_proms s1)).
-      set (s2 := {| s_proms := s_proms s1 ++ [{| p_id := id; p_tag := t; p_path := p; p_ok := is_some res; p_done := false |}];
-                    s_chans := s_chans s1; s_maps := s_maps s1; s_errs := s_errs s1;
-                    s_evs := s_evs s1; s_round := s_round s1 |}).
+      set (rec := {| p_id := id; p_tag := t; p_path := p; p_ok := is_some res; p_done := pre |}).
+      set (s2 := {| s_proms := s_proms s1 ++ [rec];
+                    s_chans := if pre then s_chans s1 ++ [(id, is_some res)] else s_chans s1;
+                    s_maps := s_maps s1; s_errs := s_errs s1;
+                    s_evs := if pre then s_evs s1 ++ [EFulfil (slice p)] else s_evs s1;
+                    s_round := s_round s1 |}).
+      assert (E' : (f, s') = (Pending (CThen (field_k FX nn res p) (CNew (promise_poll id)) None), s2)).
+      { rewrite <- E. unfold s2, rec, id. destruct pre; reflexivity. }
+      injection E' as -> ->.
+      assert (Nth : nth_error (s_proms s2) id = Some rec).
+      { unfold s2, id. cbn [s_proms]. rewrite nth_error_app2 by apply Nat.le_refl. rewrite Nat.sub_diag. reflexivity. }
       exists G, {| g_sites := snd (cand_field fp p); g_ids := [id]; g_pot := count_async_r res |}.
       split.
       + eapply Step_trans; [exact St1|].
@@ -251,22 +259,24 @@ Section Field.
         split; [exact I|].
         constructor; simpl.
         * exists [], []. rewrite app_nil_r. repeat split; [constructor | apply sub_perm_refl].
-        * eexists. split; [reflexivity|]. split; [repeat constructor|].
+        * eexists. split; [reflexivity|].
           intros [|[|k]] pr X; simpl in X; try discriminate. injection X as <-. simpl.
-          unfold np, s1. simpl. lia.
+          unfold rec, np, id, s1. simpl. lia.
         * intros i [<-|[]]. right. unfold np; simpl. rewrite app_length; simpl. unfold id, s1; simpl; lia.
         * intros _. repeat constructor. intros [].
-        * auto.
-        * intros _ _ x H1 H2. contradiction.
+        * intros x Hx. destruct pre; [|now left]. apply in_app_or in Hx. destruct Hx as [Hx|[<-|[]]]; [now left|].
+          right. cbn [fst snd]. split; [unfold np, id; lia|].
+          change (option_map p_ok (nth_error (s_proms s2) id) = Some (is_some res)). now rewrite Nth.
+        * intros _ _ x H1 H2. exfalso. apply H2. destruct pre; auto. apply in_or_app. now left.
+        * intros _ _ i [<-|[]] _ Hd. unfold done_at in Hd.
+          change (match nth_error (s_proms s2) id with Some pr => p_done pr | None => false end = true) in Hd.
+          rewrite Nth in Hd. simpl in Hd. exists (is_some res). rewrite Hd. apply in_or_app. right. now left.
         * unfold np; simpl. rewrite app_length; simpl. unfold fp, count_async_r. simpl.
           destruct res; simpl; lia.
         * reflexivity.
-      + simpl. split.
-        * unfold fp. constructor. simpl. unfold id, s1; simpl.
-          rewrite nth_error_app2 by lia. rewrite Nat.sub_diag. reflexivity.
-        * exists id. simpl. split; [now left|]. intros ok H.
-          assert (id < np s1) by (eapply chans_wf_lt; [apply chans_wf_add_ev; exact C | exact H]).
-          unfold np, id, s1 in *. simpl in *. lia.
+      + simpl. split; [|trivial].
+        unfold fp. constructor.
+        change (option_map p_ok (nth_error (s_proms s2) id) = Some (is_some res)). now rewrite Nth.
     - (* synchronous *)
       destruct res as [v|] eqn:R.
       + assert (C1 : chans_wf s1) by (apply chans_wf_add_ev; exact C).
@@ -323,11 +333,12 @@ Section Field.
     split; [apply gle_refl|]. split; [apply sle_heap; [apply hle_refl | reflexivity | reflexivity]|].
     split; [exact I|]. constructor; simpl.
     - exists [], []. rewrite app_nil_r. repeat split; [constructor | apply sub_perm_refl].
-    - exists []. rewrite app_nil_r. split; auto. split; auto. intros [|k] pr X; discriminate.
+    - exists []. rewrite app_nil_r. split; auto. intros [|k] pr X; discriminate.
     - intros i [].
     - intros _. constructor.
-    - exact B.
+    - intros x Hx. left. now apply B.
     - intros _ _ x H1 H2. split; auto. left. symmetry. now apply D.
+    - intros _ _ i [].
     - unfold np; simpl. lia.
     - reflexivity.
   Qed.
@@ -367,7 +378,8 @@ Section Field.
           -- destruct O2 as [R ->]. split; auto. now apply ResOK_W_F.
           -- destruct O2 as [L2 B2]. split; auto. now constructor.
       + injection E as <- <- <-. eexists G, _. split; [apply Step_refl; exact I|].
-        simpl. split; [exact L|]. exists id. simpl. split; [now left|]. now apply chan_take_none.
+        simpl. split; [exact L|]. exists id. simpl. split; [now left|]. split; [|now apply chan_take_none].
+        unfold np. apply nth_error_Some. destruct (nth_error (s_proms s) id); [discriminate | simpl in H5; discriminate].
     - (* the continuation has run, its future is pending *)
       rewrite invoke_CThen_some in E. destruct (invoke FX c2 s) as [[c3 r3] s3] eqn:E2.
       destruct (W_step nn v p (SI v eq_refl p) G s c2 g c3 r3 s3 I C H5 E2) as (G' & g' & St & O).
